@@ -123,3 +123,10 @@ package registry
 //@   ensures idxSound(res) && idxComplete(res)
 //@   ensures statsOK(res)
 //@   ensures forall u string :: !xhas(res.endpointModels, u)
+
+// the unified registry's entry point used by discovery (its own catalogue is outside the proofs)
+//@ func (r *UnifiedMemoryModelRegistry) RegisterModelsWithEndpoint
+//@   property C20
+//@   trusted
+//@   modifies gvar regCalls
+//@   records regCalls = old(regCalls) + 1
